@@ -13,6 +13,7 @@ import (
 	"verifmc/fp"
 	"verifmc/refmodel"
 	"verifmc/streams"
+	"verifshim/vsync"
 )
 
 type stream struct {
@@ -173,6 +174,82 @@ func main() {
 			})
 			t.Outcome("delivered-as-model")
 			t.Note(fmt.Sprintf("drivers that build their Reader internally (NextReader, ReadMessage, ReadData family): every placement of up to %d short reads (any size) in streams of depth<=%d", B, Dc))
+		})
+
+		// The read helpers build what they need per call: what one call left behind - in
+		// particular a call that failed in the middle of a message, of a character, of a frame -
+		// must not reach the next call, be it on another connection. Pools (gobwas/pool's and any
+		// declared inside gobwas/ws, through vcheck's overlay) are on a deterministic LIFO free
+		// list here, emptied before every case, so that "the same object comes back" is certain.
+		r.Part("E4-helper-calls-are-independent", func(t *explore.T) {
+			vsync.SetMode(vsync.LIFO)
+			defer vsync.SetMode(vsync.FreshPoison)
+			type dirt struct {
+				name string
+				data func(side streams.Side) []byte
+			}
+			mkf := func(side streams.Side, op byte, fin bool, p string) []byte {
+				return streams.Frame{H: refmodel.Hdr{Fin: fin, Op: op, Masked: side == streams.Server, Mask: streams.Masks[1]}, Payload: []byte(p)}.Wire()
+			}
+			cat := func(bs ...[]byte) []byte { return bytes.Join(bs, nil) }
+			dirts := []dirt{
+				{"nothing", func(side streams.Side) []byte { return nil }},
+				{"valid-fragmented-text", func(side streams.Side) []byte {
+					return cat(mkf(side, 1, false, "h\xe2"), mkf(side, 9, true, "p"), mkf(side, 0, true, "\x82\xac"))
+				}},
+				{"text-cut-inside-character", func(side streams.Side) []byte {
+					w := mkf(side, 1, true, "5 \xe2\x82\xac")
+					return w[:len(w)-1]
+				}},
+				{"text-invalid-utf8", func(side streams.Side) []byte { return mkf(side, 1, true, "a\xffb") }},
+				{"fragment-ends-inside-character-then-EOF", func(side streams.Side) []byte { return mkf(side, 1, false, "\xf0\x9f") }},
+				{"fragment-then-new-data-frame", func(side streams.Side) []byte {
+					return cat(mkf(side, 2, false, "ab"), mkf(side, 2, true, "cd"))
+				}},
+				{"cut-inside-header", func(side streams.Side) []byte { return mkf(side, 2, true, "abc")[:1] }},
+				{"cut-inside-control-between-fragments", func(side streams.Side) []byte {
+					return cat(mkf(side, 1, false, "x"), mkf(side, 9, true, "ping")[:3])
+				}},
+				{"wrong-masking", func(side streams.Side) []byte { return mkf(1-side, 2, true, "abc") }},
+				{"close-frame", func(side streams.Side) []byte { return mkf(side, 8, true, "\x03\xe8bye") }},
+			}
+			var hidden []drivers.Driver
+			for _, d := range ds {
+				if d.Hidden {
+					hidden = append(hidden, d)
+				}
+			}
+			valid := collect(2, smallCtl)
+			for _, di := range dirts {
+				for _, dd := range hidden {
+					for _, dside := range []streams.Side{streams.Server, streams.Client} {
+						di, dd, dside := di, dd, dside
+						t.DoN(int64(len(valid)*len(hidden)), func() string {
+							return fmt.Sprintf("first %s on a %s connection carrying %s; then every helper on every valid stream of depth<=2", dd.Name, dside, di.name)
+						}, func() *explore.Fail {
+							for _, st := range valid {
+								data, _ := streams.Wire(st.frames)
+								for _, d := range hidden {
+									vsync.ResetAll()
+									var junk drivers.Result
+									dd.Run(env.NewSrc(di.data(dside)), dside, drivers.Cfg{}, &junk)
+									src := env.NewSrc(data)
+									var res drivers.Result
+									d.Run(src, st.side, drivers.Cfg{}, &res)
+									if f := judge(d, st, &res, src); f != nil {
+										f.Sig = "after-earlier-call:" + f.Sig
+										f.Detail = fmt.Sprintf("second call: %s %s driver=%s\n%s", st.side, streams.Describe(st.frames), d.Name, f.Detail)
+										return f
+									}
+								}
+							}
+							return nil
+						})
+					}
+				}
+			}
+			t.Outcome("as-fresh")
+			t.Note(fmt.Sprintf("%d first streams (valid, cut inside a character / header / control frame, invalid text, protocol errors, close) x %d helper entry points x 2 sides, each followed by every helper on each of %d valid streams", len(dirts), len(hidden), len(valid)))
 		})
 	})
 }
